@@ -48,6 +48,7 @@ func OpenKV(ctx context.Context, s3opts S3Options, subdir string) (*KV, error) {
 			return nil, fmt.Errorf("s3 client: %w", err)
 		}
 	}
+	c = verifWrapS3(c, s3opts)
 	path := strings.TrimPrefix(strings.TrimPrefix(strings.TrimSuffix(s3opts.Prefix, "/"), "/")+"/"+strings.TrimPrefix(subdir, "/"), "/")
 
 	cfg := kv.Config{
